@@ -15,6 +15,7 @@ from ..core.flow import Flow
 from ..core.model import AnalysisError, ClassInfo, FuncInfo, Program
 from ..core.report import CheckContext, norm_stmt
 from ..core.resolve import Resolver, body_nodes
+from ..core.idioms import aug_add
 
 
 def buffer_replacing_methods(pt: ClassInfo) -> Dict[str, bool]:
@@ -24,8 +25,8 @@ def buffer_replacing_methods(pt: ClassInfo) -> Dict[str, bool]:
         if nm == "__init__":
             continue
         for n in body_nodes(f):
-            if isinstance(n, ast.Assign) and any(isinstance(t, ast.Attribute) and t.attr == "data" and isinstance(t.value, ast.Name) and t.value.id == "self"
-                                                 for t in n.targets):
+            if isinstance(n, ast.Assign) and any(isinstance(t1, ast.Attribute) and t1.attr == "data" and isinstance(t1.value, ast.Name) and t1.value.id == "self"
+                                                 for t in n.targets for t1 in (t.elts if isinstance(t, (ast.Tuple, ast.List)) else [t])):
                 txt = ast.unparse(n.value)
                 same_rows = txt.startswith("np.round(") or txt.startswith("numpy.round(")
                 out[nm] = not same_rows
@@ -400,28 +401,44 @@ def check_indices(ctx: CheckContext, eng: InvalEngine, funcs: List[FuncInfo], ru
             continue
         guards = _guards_of(f)
         stmts = [n for n in nodes if isinstance(n, ast.stmt)]
-        copies: List[Tuple[str, str, ast.stmt]] = []     # (a, b, stmt)  a = b
+        copies: List[Tuple[str, str, ast.stmt, frozenset]] = []     # (a, b, stmt, extra guard)  a = b
         for st in stmts:
-            if isinstance(st, ast.Assign) and len(st.targets) == 1 and isinstance(st.targets[0], ast.Name) and isinstance(st.value, ast.Name):
-                copies.append((st.targets[0].id, st.value.id, st))
-        rebases = [st for st in stmts if isinstance(st, ast.AugAssign) and isinstance(st.op, ast.Add) and isinstance(st.target, ast.Name)
-                   and isinstance(st.value, ast.Name) and st.value.id in nvars]
+            if isinstance(st, ast.Assign) and len(st.targets) == 1 and isinstance(st.targets[0], ast.Name):
+                v = st.value
+                if isinstance(v, ast.Name):
+                    copies.append((st.targets[0].id, v.id, st, frozenset()))
+                elif isinstance(v, ast.IfExp) and isinstance(v.body, ast.Name) and isinstance(v.orelse, ast.Name):
+                    # a = b if flag else c  : two guarded copies
+                    lit = None
+                    if isinstance(v.test, ast.Name):
+                        lit = (v.test.id, True)
+                    elif isinstance(v.test, ast.UnaryOp) and isinstance(v.test.op, ast.Not) and isinstance(v.test.operand, ast.Name):
+                        lit = (v.test.operand.id, False)
+                    if lit is not None:
+                        copies.append((st.targets[0].id, v.body.id, st, frozenset([lit])))
+                        copies.append((st.targets[0].id, v.orelse.id, st, frozenset([(lit[0], not lit[1])])))
+
+        def rebase_of(s2):
+            aa = aug_add(s2)
+            if aa is not None and isinstance(aa[0], ast.Name) and isinstance(aa[1], ast.Name) and aa[1].id in nvars:
+                return aa[0].id, aa[1].id
+            return None
+        rebases = [st for st in stmts if rebase_of(st) is not None]
         for rb in rebases:
-            b = rb.target.id
+            b, nv = rebase_of(rb)
             blk = _block_of(f, rb)
-            rebased_here = {s2.target.id for s2 in blk if isinstance(s2, ast.AugAssign) and isinstance(s2.target, ast.Name)
-                            and isinstance(s2.value, ast.Name) and s2.value.id == rb.value.id}
-            for (a, src, cst) in copies:
+            rebased_here = {rebase_of(s2)[0] for s2 in blk if rebase_of(s2) is not None and rebase_of(s2)[1] == nv}
+            for (a, src, cst, extra) in copies:
                 other = a if src == b else (src if a == b else None)
                 if other is None or other == b:
                     continue
-                if not _compatible(guards.get(id(cst), frozenset()), guards.get(id(rb), frozenset())):
+                if not _compatible(guards.get(id(cst), frozenset()) | extra, guards.get(id(rb), frozenset())):
                     continue
                 # the copy relation must still hold at the rebase: neither side plainly re-assigned in between (textually, same loop nest)
                 broken = False
                 for st in stmts:
-                    if isinstance(st, ast.Assign) and cst.lineno < st.lineno < rb.lineno \
-                            and _compatible(guards.get(id(st), frozenset()), guards.get(id(cst), frozenset())):
+                    if isinstance(st, ast.Assign) and cst.lineno < st.lineno < rb.lineno and rebase_of(st) is None \
+                            and _compatible(guards.get(id(st), frozenset()), guards.get(id(cst), frozenset()) | extra):
                         for tg in st.targets:
                             for e in (tg.elts if isinstance(tg, (ast.Tuple, ast.List)) else [tg]):
                                 if isinstance(e, ast.Name) and e.id in (a, src) and st is not cst:
